@@ -246,16 +246,35 @@ func (m *MemMapFs) lockfreeOpen(name string) (*mem.FileData, error) {
 	}
 }
 
+// openOrCreate returns a handle on name and creates the file, with mode perm, when the name
+// is free.  Lookup and creation are one critical section: exactly one of several concurrent
+// O_CREATE|O_EXCL calls creates the file, and a concurrent O_CREATE can no longer truncate a
+// file that another call has just created (Create truncates an existing file).
+func (m *MemMapFs) openOrCreate(name string, flag int, perm os.FileMode) (File, error) {
+	norm := normalizePath(name)
+	m.mu.Lock()
+	defer m.mu.Unlock()
+	if f, ok := m.getData()[norm]; ok {
+		if flag&os.O_EXCL > 0 {
+			return nil, &os.PathError{Op: "open", Path: name, Err: ErrFileExists}
+		}
+		return mem.NewFileHandle(f), nil
+	}
+	f := mem.CreateFile(norm)
+	mem.SetMode(f, perm)
+	m.getData()[norm] = f
+	m.registerWithParent(f, 0)
+	return mem.NewFileHandle(f), nil
+}
+
 func (m *MemMapFs) OpenFile(name string, flag int, perm os.FileMode) (File, error) {
 	perm &= chmodBits
-	chmod := false
-	file, err := m.openWrite(name)
-	if err == nil && flag&os.O_CREATE > 0 && flag&os.O_EXCL > 0 {
-		return nil, &os.PathError{Op: "open", Path: name, Err: ErrFileExists}
-	}
-	if os.IsNotExist(err) && (flag&os.O_CREATE > 0) {
-		file, err = m.Create(name)
-		chmod = true
+	var file File
+	var err error
+	if flag&os.O_CREATE > 0 {
+		file, err = m.openOrCreate(name, flag, perm)
+	} else {
+		file, err = m.openWrite(name)
 	}
 	if err != nil {
 		return nil, err
@@ -277,9 +296,6 @@ func (m *MemMapFs) OpenFile(name string, flag int, perm os.FileMode) (File, erro
 			file.Close()
 			return nil, err
 		}
-	}
-	if chmod {
-		return file, m.setFileMode(name, perm)
 	}
 	return file, nil
 }
